@@ -12,6 +12,7 @@ import IocProofs.Lemmas.ScanHand
 import IocProofs.Lemmas.ScanValue
 import IocProofs.Lemmas.SemScanFields
 import IocProofs.Lemmas.ScanCode
+import IocProofs.Lemmas.TagScanLink
 namespace Ioc.C11
 open Ioc Ioc.Scan
 
@@ -284,6 +285,73 @@ theorem C11_scanShape_is_code_level (path : List Bytes) (sh : Shape) :
     have := List.mem_range'_1.mp hi
     omega
   simp [lfieldAt, List.getD_eq_getElem?_getD, hi']
+
+/-- DefaultTagScanDefinitionRegistryPostProcessor.PostProcessDefinitionRegistry, regenerated (interpretation Ioc.SemTagScan:
+    what `Tag.Lookup` and the ExtractHandler answer about each field are parameters; a Property is an object of the world
+    because `SetArg` writes through the pointer).  For EVERY list of fields and every answers: the call returns nil and hands
+    the meta exactly one property for every field the processor recognises — the `d.Tag` lookup first, else the
+    ExtractHandler, whose empty tag means `d.Tag` — in field order, nothing for any other field, each marked required when
+    the processor requires and the tag text does not say otherwise; what the meta held before is kept in front. -/
+theorem C11_code_tagScan (d : TSD) (fs : List Nat) (nm : String) (w : TW) :
+    ∃ w', run (tsPrims d fs) Progs.scan_PostProcessDefinitionRegistry [.ref 0 2, .ref 0 3, .str nm] w = some (.nil, w') ∧
+      w'.metaProps = w.metaProps ++
+        fs.filterMap (fun i => (recogS d i).map fun r => SP.applyReq d ⟨i, d.nodeType, r.1, r.2, false⟩) :=
+  tagScan_sem d fs nm w
+
+/-- the recognition rule of one field, as the regenerated lines 21-35 decide it -/
+theorem C11_code_recognition_rule (d : TSD) (i : Nat) :
+    recogS d i =
+      (match (if d.tag ≠ "" then d.lookup i else none) with
+       | some tv => some (d.tag, tv)
+       | none =>
+         if d.hasExt then
+           match d.ext i with
+           | some (t, tv) => some (if t = "" then d.tag else t, tv)
+           | none => none
+         else none) := rfl
+
+/-- NewProperty, regenerated: TagStr and TagVal are both what `Parse` returns for the tag text, the args are the very map that
+    `Parse` call filled, Configurations is a fresh empty map; field, type and tag are the arguments unchanged -/
+theorem C11_code_NewProperty (pv : String → String) (f pt : Go.Val) (t tv : String) (w : List NObj) :
+    run (npPrims pv) Progs.prop_NewProperty [f, pt, .str t, .str tv] w =
+      some (.ref (w.length + 2) 42,
+        w ++ [.args (some tv), .conf, .prop f pt t (pv tv) (pv tv) (w.length + 1) w.length]) :=
+  newProperty_sem pv f pt t tv w
+
+/-- the model's `propsOf` — the function the theorems above are about — IS what the regenerated function hands over, read
+    through any faithful writing `e` of byte strings as Go strings (`dec ∘ e = id`, only the empty string is written empty),
+    for every processor whose ExtractHandler does not panic and every list of scanned fields -/
+theorem C11_propsOf_is_code (e : Bytes → String) (dec : String → Bytes) (hdec : ∀ b, dec (e b) = b)
+    (he0 : ∀ b, e b = "" ↔ b = []) (d : TagProc) (hnp : ∀ h, d.extract = some h → ∀ f, h f ≠ .panic)
+    (fields : List ScannedField) :
+    (tagScanSpec (tsdOf e dec d fields) (List.range fields.length)).filterMap (propOf dec fields) = propsOf d fields :=
+  propsOf_is_tagScanSpec e dec hdec he0 d hnp fields
+
+/-- such a writing exists (bytes as the characters below 256), and the built-in scanners other than the value scanner — whose
+    `prop` shorthand can panic (Ioc.Scan.valueExtract) — meet the no-panic premise outright -/
+theorem C11_propsOf_is_code_builtin (d : TagProc) (hd : d ∈ [procLogger, procProperties, procWire, procFunc])
+    (fields : List ScannedField) :
+    (tagScanSpec (tsdOf encB ofString d fields) (List.range fields.length)).filterMap (propOf ofString fields) =
+      propsOf d fields := by
+  refine propsOf_is_tagScanSpec encB ofString dec_encB encB_empty d ?_ fields
+  intro h hx f
+  simp only [List.mem_cons, List.mem_nil_iff, or_false] at hd
+  rcases hd with rfl | rfl | rfl | rfl
+  · cases hx
+  · simp only [procProperties, Option.some.injEq] at hx; subst hx; unfold markerExtract; split <;> simp
+  · cases hx
+  · cases hx
+
+/-- non-vacuity: a processor with tag "wire" and a handler over four fields (0: tagged; 1: handler answers with an empty tag;
+    2: nothing; 3: handler answers with its own tag, text asks for required itself) -/
+def exTSD : TSD :=
+  { nodeType := "Component", tag := "wire", hasExt := true, required := true,
+    lookup := fun i => if i = 0 then some "a" else none,
+    ext := fun i => if i = 1 then some ("", "b") else if i = 3 then some ("x", "c,required") else if i = 0 then some ("y", "z") else none,
+    hasReq := fun tv => tv = "c,required" }
+example : tagScanSpec exTSD [0, 1, 2, 3] =
+    [⟨0, "Component", "wire", "a", true⟩, ⟨1, "Component", "wire", "b", true⟩, ⟨3, "Component", "x", "c,required", false⟩] := by
+  decide
 
 end code
 
